@@ -1,0 +1,68 @@
+//! Verification hooks for C14 / C15 / C16 (feature `verif`): read-only views of the scheduler's
+//! state for the harness' oracles.  No behaviour of their own.
+
+use crate::scheduler::WorkBucketStage;
+use crate::vm::VMBinding;
+use crate::MMTK;
+use enum_map::Enum;
+
+/// State of one work bucket.
+#[derive(Clone, Debug)]
+pub struct BucketView {
+    pub stage: usize,
+    pub name: String,
+    pub is_stw: bool,
+    pub open: bool,
+    pub enabled: bool,
+    pub empty: bool,
+    pub has_sentinel: bool,
+}
+
+/// All work buckets, in stage order.
+pub fn buckets<VM: VMBinding>(mmtk: &MMTK<VM>) -> Vec<BucketView> {
+    (0..WorkBucketStage::LENGTH)
+        .map(|i| {
+            let stage = WorkBucketStage::from_usize(i);
+            let b = &mmtk.scheduler.work_buckets[stage];
+            BucketView {
+                stage: i,
+                name: format!("{:?}", stage),
+                is_stw: stage.is_stw(),
+                open: b.is_open(),
+                enabled: b.is_enabled(),
+                empty: b.is_empty(),
+                has_sentinel: b.has_sentinel(),
+            }
+        })
+        .collect()
+}
+
+/// The index of a stage (the value the event log uses).
+pub fn stage_index(stage: WorkBucketStage) -> usize {
+    stage.into_usize()
+}
+
+/// Whether any worker has designated work.
+pub fn has_designated_work<VM: VMBinding>(mmtk: &MMTK<VM>) -> bool {
+    mmtk.scheduler.worker_group.has_designated_work()
+}
+
+/// (worker count, parked workers, current goal, requested goals as a bit mask) of the worker
+/// monitor, or `None` if its mutex is held.  Goals: 0 = Gc, 1 = Shutdown, 2 = StopForFork.
+pub fn monitor<VM: VMBinding>(mmtk: &MMTK<VM>) -> Option<(usize, usize, Option<usize>, usize)> {
+    mmtk.scheduler.worker_monitor.verif_snapshot()
+}
+
+/// The GC trigger's "collection requested" flag.
+pub fn gc_requested<VM: VMBinding>(mmtk: &MMTK<VM>) -> bool {
+    mmtk.gc_trigger.verif_request_flag()
+}
+
+/// Push and steal `n` no-op packets on the queue of bucket `stage` (see
+/// `WorkBucket::verif_cycle_queue`).  Only call this at a quiescent point.
+pub fn cycle_bucket_queue<VM: VMBinding>(mmtk: &MMTK<VM>, stage: usize, n: usize) {
+    mmtk.scheduler.work_buckets[WorkBucketStage::from_usize(stage)].verif_cycle_queue(n)
+}
+
+/// Capacity of one block of a bucket queue (`crossbeam_deque::Injector`).
+pub const BUCKET_QUEUE_BLOCK_CAP: usize = 63;
